@@ -85,7 +85,9 @@ class Monitor(object):
                 self.violate("inter_arrival_samples_ne_arrivals_plus_1", {"node": nd, "class": cl, "samples": len(s), "arrivals": len(ev)})
         self.A = A
         for ind, r in self.hub.new_records():
-            if r.record_type == "service" and self.kinds.get(r.node) in ("fixed", "sched", "inf", "slotted"):
+            interrupted_visit = any(x.record_type == "interrupted service" and x.node == r.node and x.arrival_date == r.arrival_date
+                                    for x in ind.data_records)
+            if r.record_type == "service" and self.kinds.get(r.node) in ("fixed", "sched", "inf", "slotted") and not interrupted_visit:
                 m = [x for x in self.srv_samples if x[0] == r.node and x[1] == r.id_number and x[2] == r.service_start_date]
                 if len(m) != 1:
                     self.violate("service_samples_for_one_start_ne_1", {"id": r.id_number, "node": r.node, "start": r.service_start_date,
@@ -131,10 +133,15 @@ class Spec(object):
     ]
 
     def monitors(self, cfg):
+        if any(n.get("preempt") for n in cfg["nodes"]):
+            # pre-emption families: the per-visit sample identities of C11 state "lasts exactly the sampled time"
+            from .c11 import Monitor as M11
+            from ..history import History
+            return [History(), Monitor(cfg), M11(cfg)]
         return [Monitor(cfg)]
 
     def nontrivial(self, cfg, res):
-        return "service_checked" in res.flags or "invalid_rejected" in res.flags
+        return "service_checked" in res.flags or "invalid_rejected" in res.flags or "visit_with_interruption" in res.flags
 
     def families(self, tier):
         return focused(tier)
@@ -165,6 +172,8 @@ def focused(tier):
                     "B": klass([None], [{"values": [1.0, 0.25], "by_class": {"A": [2.0, 0.5], "B": [1.0, 0.25]}}], route=matrix([[0.5]]))},
                    K=2, T=8.0, D=4 if tier == "quick" else 6, features=["state_dependent"]))
     out.append(tandem("tandem blocking", fam, c=(1, 1), caps=(None, 0), K=K, features=["blocking"]))
+    from .c11 import ties_and_disciplines
+    out += [c for c in ties_and_disciplines(tier, fam="F-samples-preempt") if "tie" in c["name"]]
     # invalid answers: one per sample position of the default execution
     fam = "F-invalid"
     out.append(cfg("invalid c=1 batch", fam, [node(c=1)],
